@@ -1,4 +1,5 @@
 From Coq Require Import Extraction ExtrOcamlBasic.
-From JV Require Import Model.SubBook.
+From JV Require Import Model.SubBook Model.SubBookWire.
 Extraction Language OCaml.
-Extraction "../modelrun/gen/subhist_model.ml" init step step_old run_gen drain_trace conns subs table stopped c_wire c_queue c_open c_ended.
+Extraction "../modelrun/gen/subhist_model.ml" init step step_old run_gen drain_trace conns subs table stopped c_wire c_queue c_open c_ended
+  errkind_wire.
